@@ -895,7 +895,9 @@ def _rejects(ctx, ex: ExcAnalysis, abs_: Abs):
                               ('multi-client configuration naming no port', ('names a port that does not exist',)),
                               ('unknown claim / release event', ('claim event the interface', 'release event the interface')),
                               ('granting value / reply type', ('granting value', 'replies void', 'replies an extern')),
-                              ('fixture only where configured', ('gets a multi-client fixture', 'gets no fixture'))):
+                              ('fixture only where configured', ('gets a multi-client fixture', 'gets no fixture')),
+                              ('port type that is unknown / ambiguous / no interface (provides, requires, injected requires port)',
+                               ('port whose type',))):
             mine_ = [p_ for p_ in probs_ if any(k_ in p_ for k_ in keys_)]
             run.add('C13.rejects', cde.module.name, cde.qualname, label_, not mine_,
                     f'{label_}: refused with the documented library error (create_dzn_elements interpreted on the scenario models)'
